@@ -5,6 +5,12 @@ NOTES = ("All checks are static: they decide from /repo's current sources (type-
 _MIR = "trusted: rustc's MIR construction, the fact extractor, the Python engines (CFG, provenance, guards); std API contracts named in the evidence"
 
 CHECKS = {
+    "C01": dict(level="proof", design_ref="5/C01", technique="structural induction: traversal obligations generated from the parser's ADT definitions, discharged on the walker's MIR by access-path provenance and guard analysis (static analysis)",
+                text="Proof by structural induction over the parse tree: for each of the 99 variants of the five node types the obligations (every node-typed child "
+                     "recursed into exactly once, in source order, unconditionally; single guarded pre-order push; every recursive result appended; result returned; "
+                     "classification tables injective and name-agreeing; entry points pass the requested kinds unchanged) are generated from the ADT definitions "
+                     "and each is discharged on the MIR; obligations == discharged is required.",
+                note="trusted: rustc MIR construction, the extractor and engines, std Vec/HashSet/Option contracts, field order = source order for solang-parser 0.1.18; inline assembly excluded by type"),
     "C03": dict(level="other", design_ref="5/C03", technique="MIR dataflow: accumulator mutation discipline + provenance of merge keys (static analysis)",
                 text="Structural: in each of the three analyze_dir the returned map is only ever extended per key (entry/or_insert/push|append), the recursion "
                      "passes the same patterns and its result is merged under its own keys, the per-file result is pushed under the pattern that produced it. "
